@@ -1,1 +1,123 @@
+// Kani harnesses for C12, child module of src/algorithm/neighbour/bbd_tree.rs: the REAL BBDTree::prune (the pruning test of the
+// tree-accelerated assignment step) against its GEOMETRIC definition.  Paired with the Verus unit specs/C12/bbd_prune.rs
+// (fallback_for): when somebody rewrites prune with constructs Verus cannot read (iterator adapters, closures, no loop where the
+// unit expects one ...) the unit is inconclusive; these harnesses then decide small boxes on the real code.
+//
+// prune is an associated function (no BBDTree value is needed): prune(center, radius, centroids, best_index, test_index).
+// The cell is the box  center +- radius  in dimension D; there are two centroids; best_index and test_index are symbolic in {0, 1}
+// (the case best_index == test_index included).  Box centre and centroid coordinates are drawn by symbolic bytes from the constant
+// set {0, 1, 2, 3}, half-widths from {1, 2}: all quantities prune computes are small integers, exact in f64, so the harness
+// computes the expected answer in INTEGER arithmetic.
+//
+// Obligations (what specs/C12/bbd_prune.rs + prune_sound.rs prove about the unchanged code, stated geometrically so that the
+// harness does not repeat the shape of the code):
+//   best_index == test_index                       => false  (the best candidate is never pruned against itself)
+//   otherwise: true  iff  EVERY vertex v of the box is at least as close to `best` as to `test`
+//                         (|v - test|^2 >= |v - best|^2 for all 2^D vertices; equivalently, at the vertex that is extreme in
+//                          direction test - best:  |test - best|^2 >= 2 (v - best).(test - best))
+// "true although some vertex is closer to test" is the over-pruning that makes the assignment differ from exhaustive search;
+// "false although no vertex is" is the contract of the unit (prune-is-the-extreme-vertex-comparison), a lost optimisation.
 use super::*;
+
+const COORD: [f64; 4] = [0.0, 1.0, 2.0, 3.0];
+const HALF: [f64; 3] = [0.0, 1.0, 2.0];
+
+// a coordinate 0..4 from one symbolic byte
+fn verif_coord() -> usize {
+    let b: u8 = kani::any();
+    kani::assume(b < 4);
+    b as usize
+}
+
+// a half-width 1..=2 from one symbolic byte
+fn verif_half() -> usize {
+    let b: u8 = kani::any();
+    kani::assume(b == 1 || b == 2);
+    b as usize
+}
+
+macro_rules! verif_each_vertex {
+    ([$($i:expr),*], $v:ident, $body:block) => {
+        $( { let $v: usize = $i; $body } )*
+    };
+}
+
+macro_rules! prune_harness {
+    ($name:ident, $d:expr, $unw:expr) => {
+        #[kani::proof]
+        #[kani::unwind($unw)]
+        fn $name() {
+            const D: usize = $d;
+            let mut ic = [0i32; D]; // box centre
+            let mut ir = [0i32; D]; // box half-widths
+            let mut icent = [[0i32; D]; 2]; // the two centroids
+            let mut center: Vec<f64> = Vec::with_capacity(D);
+            let mut radius: Vec<f64> = Vec::with_capacity(D);
+            let mut c0: Vec<f64> = Vec::with_capacity(D);
+            let mut c1: Vec<f64> = Vec::with_capacity(D);
+            let mut a = 0;
+            while a < D {
+                let c = verif_coord();
+                let h = verif_half();
+                let x0 = verif_coord();
+                let x1 = verif_coord();
+                ic[a] = c as i32;
+                ir[a] = h as i32;
+                icent[0][a] = x0 as i32;
+                icent[1][a] = x1 as i32;
+                center.push(COORD[c]);
+                radius.push(HALF[h]);
+                c0.push(COORD[x0]);
+                c1.push(COORD[x1]);
+                a += 1;
+            }
+            let mut centroids: Vec<Vec<f64>> = Vec::with_capacity(2);
+            centroids.push(c0);
+            centroids.push(c1);
+            let best_index: usize = if kani::any() { 1 } else { 0 };
+            let test_index: usize = if kani::any() { 1 } else { 0 };
+
+            let r = BBDTree::<f64>::prune(&center, &radius, &centroids, best_index, test_index);
+
+            if best_index == test_index {
+                assert!(!r, "prune: the best candidate is never pruned against itself (best_index == test_index gives false)");
+            } else {
+                let best = icent[best_index];
+                let test = icent[test_index];
+                // every vertex of the box at least as close to best as to test?
+                let mut all_vertices_best = true;
+                // (straight-line over the vertex numbers: the unwinding bound of the harness stays d + 1, what prune itself needs)
+                verif_each_vertex!([0, 1, 2, 3], mask, {
+                    if mask < (1 << D) {
+                        let mut to_best = 0i32;
+                        let mut to_test = 0i32;
+                        let mut a = 0;
+                        while a < D {
+                            let v = if (mask >> a) & 1 == 1 { ic[a] + ir[a] } else { ic[a] - ir[a] };
+                            to_best += (v - best[a]) * (v - best[a]);
+                            to_test += (v - test[a]) * (v - test[a]);
+                            a += 1;
+                        }
+                        if to_test < to_best {
+                            all_vertices_best = false;
+                        }
+                    }
+                });
+                assert!(
+                    !r || all_vertices_best,
+                    "prune: a candidate is pruned only if NO vertex of the cell is closer to it than to the best candidate (no over-pruning)"
+                );
+                assert!(
+                    r || !all_vertices_best,
+                    "prune: a candidate is pruned whenever every vertex of the cell is at least as close to the best candidate (extreme-vertex comparison)"
+                );
+            }
+            // vacuity guard: a candidate at a different place than the best one is pruned
+            kani::cover!(r && best_index != test_index && icent[0][0] != icent[1][0]);
+        }
+    };
+}
+
+//             name          d  unwind (d + 1: prune loops d times)
+prune_harness!(c12_prune_d1, 1, 2);
+prune_harness!(c12_prune_d2, 2, 3);
